@@ -13,3 +13,10 @@ template class Spectra::PartialSVDSolver<SMat>;
 // SymEigsSolver<SVDMatOp> cannot be instantiated explicitly (abstract operator, rvalue constructor):
 // its members are instantiated through PartialSVDSolver's uses.
 template class Spectra::LOBPCGSolver<double>;
+// the solver's constructor may be a member template: instantiate it by use, with arguments that map directly
+// (same type) and arguments that need an evaluated temporary (other storage order)
+void use_svd_ctors(const DMat& d, const DMatR& dr, const SMat& s, const SMatR& sr)
+{
+    PartialSVDSolver<DMat> a(d, 1, 2), b(dr, 1, 2);
+    PartialSVDSolver<SMat> c(s, 1, 2), e(sr, 1, 2);
+}
